@@ -42,7 +42,7 @@ EVENTS = [
     ["opt", "clip_to_viewbox", False], ["opt", "clipbox_quantization", 64], ["opt", "bitmap_resolution", 64], ["opt", "use_pngquant", False],
 ]
 VECTOR_NODES = ["picosvg", "write_glyphmap", "write_fea", "write_part_file", "write_combined_part_files", "write_font"]
-BITMAP_NODES = ["resvg", "pngquant", "zopfli"]
+BITMAP_NODES = ["resvg", "pngquant", "pngquant-bin", "zopfli"]  # pngquant = the Python wrapper step, pngquant-bin = the executable it runs
 MODES = ["fail-before", "truncate-kill", "truncate-killall"]
 DRIVER_FAULTS = [["driver", "kill-before-ninja-file"], ["driver", "kill-half-ninja-file"]]
 
@@ -301,6 +301,13 @@ def run(report, tier, only=None):
                             for mode in MODES:
                                 counter[0] += 1
                                 cases.append({"root": str(root), "parent": st["dir"], "id": f"n{counter[0]}", "srcs": st["srcs"], "opts": st["opts"], "event": ["opt", "color_format", "cbdt"], "fault": [node, mode], "history": st["history"]})
+                if level == fault_depth + 1 and st["opts"].get("color_format") == "cbdt" and len(st["history"]) == level:
+                    # a bitmap build directory that already holds outputs of an earlier invocation: every bitmap
+                    # node fails once more after a source edit (stale outputs are what a swallowed failure would use)
+                    for node in BITMAP_NODES:
+                        for mode in MODES:
+                            counter[0] += 1
+                            cases.append({"root": str(root), "parent": st["dir"], "id": f"n{counter[0]}", "srcs": st["srcs"], "opts": st["opts"], "event": ["modify", "A"], "fault": [node, mode], "history": st["history"]})
             results = pool.run_cases(transition, cases, timeout=1500, seed=report.seed, jobs=8, chunksize=1)
             nxt = []
             for c, vs in zip(cases, results):
